@@ -1,7 +1,7 @@
-SPECIFICATION Spec
+SPECIFICATION MCSpec
 CONSTANTS
   CopyPolicy = "copyFalse"
-  CfgSpace <- MCCfgQuick
+  CfgSpace = {}
 INVARIANT Encoding
 INVARIANT Nearest
 INVARIANT TiesToEven
